@@ -350,6 +350,17 @@ m("twin-ret-operand-tokens-reordered", ["C15"], "silent", PST,
 m("twin-neg-arms-reordered", ["C03", "C19"], "silent", TC,
   "            Type::Int | Type::Float => Ok(()),\n\n            // Negation is element-wise", "            Type::Float | Type::Int => Ok(()),\n\n            // Negation is element-wise")
 
+
+# ---- extraction twins (a few lines moved into a new private helper; the loader inlines unknown helpers)
+m("twin-break-guard-extracted", ["C05", "C06"], "silent", TC,
+  "            S::Break(span) => {\n                if !ctx.inside_loop {\n                    err_type_error!(\n                        self,\n                        *span,\n                        TypeError::Exotic,\n                        \"`break` only works in loops\"\n                    )\n                } else {\n                    Ok(None)\n                }\n            }",
+  "            S::Break(span) => self.break_needs_loop(*span, ctx),")
+W[-1]["edits"].append(dict(file=TC, old="    fn can_assign(", new="    fn break_needs_loop(&self, at: Span, ctx: TypeCtx) -> TypeResult<Option<TyID>> {\n        if !ctx.inside_loop {\n            err_type_error!(self, at, TypeError::Exotic, \"`break` only works in loops\")\n        } else {\n            Ok(None)\n        }\n    }\n\n    fn can_assign(", count=1))
+m("twin-loop-lowering-extracted", ["C01", "C06", "C10"], "silent", IR,
+  "                let (cops, c) = self.expression(&condition, ctx);\n                let l = self.label();",
+  "                let (cops, c) = self.loop_condition(&condition, ctx);\n                let l = self.label();")
+W[-1]["edits"].append(dict(file=IR, old="    fn definition(&mut self, var: Var, value: &Expression, ctx: IRContext) -> Vec<IR> {", new="    fn loop_condition(&mut self, cond: &Expression, ctx: IRContext) -> (Vec<IR>, Var) {\n        self.expression(cond, ctx)\n    }\n\n    fn definition(&mut self, var: Var, value: &Expression, ctx: IRContext) -> Vec<IR> {", count=1))
+
 for w in W:
     with open(os.path.join(OUT, w["name"] + ".json"), "w") as fh:
         json.dump(w, fh, indent=1)
